@@ -1659,7 +1659,9 @@ namespace bloch::runtime {
         bool prevStatic = m_inStaticContext;
         bool prevCtor = m_inConstructor;
         bool prevDtor = m_inDestructor;
-        m_currentClassCtx = staticDispatchClass ? staticDispatchClass : method->owner;
+        // The body runs in the class that declares it (that is what bare names, 'super' and
+        // private members refer to), not in the static class the call was written against.
+        m_currentClassCtx = method->owner ? method->owner : staticDispatchClass;
         m_inStaticContext = method->isStatic;
         m_inConstructor = false;
         m_inDestructor = false;
